@@ -131,33 +131,34 @@ type lvar struct {
 }
 
 type fn struct {
-	u         *Unit
-	pi        *pkgInfo
-	obj       *types.Func
-	sig       *Sig
-	names     map[types.Object]string
-	used      map[string]bool
-	scope     []lvar
-	structs   map[types.Object]int // struct-typed Go parameters -> index
-	params    map[string]*lparam   // discovered struct paths and globals, by Lean name
-	tvars     map[string]string
-	pre       []string
-	opt       bool
-	panics    bool
-	nloop     int
-	ntmp      int
-	aux       []string
-	brk       func() string
-	cont      func() string
-	muts      map[string]bool // parameters (Lean names) written through: xs[i] = v, PutUint*, mutator calls
-	needGas   bool
-	closure   int  // > 0 while translating a function literal
-	depth     int  // loop nesting depth
-	hasReturn bool // a return statement was translated inside the innermost loop body
-	foreign   map[types.Object]bool
-	flat      map[types.Object][]flatField // struct locals kept field by field
-	slice     bool                         // translating selected statements of a function: unknown locals become parameters
-	order     []*lparam                    // discovered parameters in discovery order
+	u          *Unit
+	pi         *pkgInfo
+	obj        *types.Func
+	sig        *Sig
+	names      map[types.Object]string
+	used       map[string]bool
+	scope      []lvar
+	structs    map[types.Object]int // struct-typed Go parameters -> index
+	params     map[string]*lparam   // discovered struct paths and globals, by Lean name
+	tvars      map[string]string
+	pre        []string
+	opt        bool
+	panics     bool
+	nloop      int
+	ntmp       int
+	aux        []string
+	brk        func() string
+	cont       func() string
+	muts       map[string]bool // parameters (Lean names) written through: xs[i] = v, PutUint*, mutator calls
+	needGas    bool
+	closure    int  // > 0 while translating a function literal
+	depth      int  // loop nesting depth
+	hasReturn  bool // a return statement was translated inside the innermost loop body
+	foreign    map[types.Object]bool
+	flat       map[types.Object][]flatField // struct locals kept field by field
+	closedOver map[string]string            // oracle name -> the arguments it closes over
+	slice      bool                         // translating selected statements of a function: unknown locals become parameters
+	order      []*lparam                    // discovered parameters in discovery order
 }
 
 func (f *fn) fail(n ast.Node, format string, a ...any) {
@@ -694,6 +695,7 @@ var intrinsics = map[string]string{
 	"time.UnixMilli": "Go.timeUnixMilli", "(time.Time).UTC": "id", "(time.Time).Sub": "Go.timeSub",
 	"(time.Time).UnixNano": "Go.timeUnixNano", "(time.Time).UnixMilli": "Go.timeToUnixMilli",
 	"(time.Time).Before": "<", "(time.Time).After": ">", "(time.Time).Add": "Go.timeAdd",
+	"bytes.Equal": "Go.bytesEqual", "bytes.Compare": "Go.bytesCompare",
 }
 
 // call translates a call in expression position (nres = number of results the context accepts).
@@ -1195,7 +1197,7 @@ func (u *Unit) translate(obj *types.Func) *Sig {
 	for pass := 1; pass <= 2; pass++ {
 		prev := f
 		f = &fn{u: u, pi: pi, obj: obj, names: map[types.Object]string{}, used: map[string]bool{}, structs: map[types.Object]int{},
-			params: map[string]*lparam{}, tvars: map[string]string{}, opt: true, sig: &Sig{}, muts: map[string]bool{}, foreign: map[types.Object]bool{}, flat: map[types.Object][]flatField{}}
+			params: map[string]*lparam{}, tvars: map[string]string{}, opt: true, sig: &Sig{}, muts: map[string]bool{}, foreign: map[types.Object]bool{}, flat: map[types.Object][]flatField{}, closedOver: map[string]string{}}
 		if prev != nil {
 			f.opt, f.muts, f.needGas = prev.panics, prev.muts, prev.needGas
 		}
@@ -1443,7 +1445,7 @@ func (u *Unit) Slice(pkgRel, recv, name, leanName string, pats []string, result 
 		prev := f
 		f = &fn{u: u, pi: pi, obj: obj, names: map[types.Object]string{}, used: map[string]bool{leanName: true}, structs: map[types.Object]int{},
 			params: map[string]*lparam{}, tvars: map[string]string{}, opt: true, slice: true, sig: &Sig{Name: leanName, NRes: 1, NDecl: 1},
-			muts: map[string]bool{}, foreign: map[types.Object]bool{}, flat: map[types.Object][]flatField{}}
+			muts: map[string]bool{}, foreign: map[types.Object]bool{}, flat: map[types.Object][]flatField{}, closedOver: map[string]string{}}
 		var resT []ty
 		if r, ok := last.(*ast.ReturnStmt); ok {
 			f.sig.NRes, f.sig.NDecl = len(r.Results), len(r.Results)
